@@ -119,4 +119,25 @@ theorem refresh_readers_src : refresh_readers_rhs = "asn, country" := by decide
 theorem ctry_scan_src :
     ctry_scan_conds = "err != nil | c == CountryNone | subnet.Addr().Is4() | err != nil" := by decide
 
+/-! `geoip.File.Data` and its location cache (`Agd.ECS.blockOf`, `dataCached`). -/
+/-- The cache key is the first three bytes of an IPv4 address and the first seven of any other one:
+a /24 resp. /56 block, nothing coarser (`Agd.ECS.blockOf`, `data_cache_block_local`). -/
+theorem ipkey_returns_src : ipkey_returns = "[3]byte(a[:]) | [7]byte(a[:])" := by decide
+theorem ipkey_cond_src : ipkey_cond = "ip.Is4()" := by decide
+/-- An IPv4-mapped IPv6 address (possible in an ECS option of family 2) is turned into the IPv4
+address BEFORE the cache key is computed, and the key is computed from the normalised address; a hit
+returns without touching the databases, a miss looks the normalised address up and caches it. -/
+theorem data_conds_src :
+    data_conds = "ip == (netip.Addr{}) | ip.Is4In6() | ok | err != nil | err != nil" := by decide
+theorem data_calls_src :
+    data_calls = "netip.AddrFrom4,ipToCacheKey,f.ipCache.Get,f.lookupASN,f.setCtry,f.setCaches" := by decide
+theorem data_key_arg_src : data_key_arg = "ip" := by decide
+theorem data_norm_src : data_norm_rhs = "netip.AddrFrom4(ip.As4())" := by decide
+
+/-! Names (`Agd.ECS.normalizeDomain`, `Req.host` vs `Req.qn`). -/
+/-- The cache keys use the normalised host of the request information … -/
+theorem reqinfo_host_src : reqinfo_host_rhs = "agdnet.NormalizeDomain(q.Name)" := by decide
+/-- … while the fake-ECS list is asked about the question name as the message carries it. -/
+theorem dep_name_arg_src : dep_name_arg = "scope, req.Question[0].Name" := by decide
+
 end Agd.Tie.C05
